@@ -570,7 +570,7 @@ def r8_guess_from_tree(ctx, rule):
                {'attributes_written_after_init': sorted(written_outside_init)})
 
 
-def _upper_bounds(expr):
+def _upper_bounds(expr, lin=lin):
     """Exclusive range stop -> list of (term_text, inclusive_offset); None if not linear in one atom."""
     parts = expr.args if isinstance(expr, ast.Call) and call_name(expr) == 'min' and not expr.keywords else [expr]
     shift = 0
@@ -594,18 +594,49 @@ def r9_level_cursor_domain(ctx, rule):
     equal to the remaining budget is still affordable. A bound that stops one short (seed C10-f: range(cur,
     min(budget + 1, max_level))) silently drops every string whose initial n-gram or length has the top level; a bound one
     too far indexes a level that does not exist."""
-    specs = [(MC + '_increase_len_for_target', {'self.target_level'}), (MC + '_increase_ip_for_target', {'working_target'})]
+    specs = [(MC + '_increase_len_for_target', {'self.target_level'}, Lin({'self.target_level': 1}, 0)),
+             (MC + '_increase_ip_for_target', {'working_target'}, Lin({'self.target_level': 1, 'self.cur_len[0]': -1}, 0))]
     n = 0
-    for q, budget_terms in specs:
+    KNOWN = {'self.target_level', 'self.cur_len[0]', 'self.cur_ip[0]', 'self.max_level', 'working_target'}
+    for q, budget_terms, expected in specs:
         fn = ctx.fn(q)
         bounds = None
         site = fn
+        bname = sorted(budget_terms)[0]
+        stores_ = stores_in(fn)
+        # the budget handed in by the caller (IP walk): working_target at the call site
+        site_arg = None
+        if bname in params(fn):
+            for c_ in calls_in(ctx.fn(MC + 'next_guess')):
+                if (call_name(c_) or '').endswith(fn.name):
+                    a_ = arg_for(c_, fn, bname, bound=True)
+                    if a_ is not None:
+                        site_arg = lin(expand(ctx.fn(MC + 'next_guess'), a_))
+        wrong_budget = []
+
+        def blin(e_, _lin=lin):
+            '''linear form of a level bound with the budget, however it is spelled, folded into the one atom `bname`'''
+            l_ = _lin(expand(fn, e_, stores_)) if not isinstance(e_, Lin) else e_
+            if l_ is None:
+                return None
+            if bname in l_.t and bname in params(fn) and site_arg is not None:
+                pass            # the parameter stands for the budget; its value is checked at the call site below
+            d_ = l_ - expected
+            if not d_.t and bname not in params(fn):
+                return Lin({bname: 1}, d_.c)
+            if len(l_.t) > 1 and set(l_.t) <= KNOWN:
+                wrong_budget.append(repr(l_))
+                return None
+            return l_
+        if bname in params(fn) and site_arg is not None and site_arg != expected:
+            ctx.bad(rule, MC + 'next_guess', 'budget passed to %s: %r' % (fn.name, site_arg),
+                    'the initial n-gram walk may use what the length left over: target_level - length level (inclusive)', None, None)
         for node in walk_local(fn):
             if isinstance(node, ast.While) and isinstance(node.test, ast.Compare) and len(node.test.ops) == 1 and U(node.test.left) == 'level':
                 site = node
                 bounds = []
                 op = node.test.ops[0]
-                l = lin(node.test.comparators[0])
+                l = blin(node.test.comparators[0])
                 if l is None or len(l.t) != 1 or not isinstance(op, (ast.LtE, ast.Lt)):
                     bounds = None
                     break
@@ -614,7 +645,7 @@ def r9_level_cursor_domain(ctx, rule):
                     if isinstance(st, ast.If) and isinstance(st.test, ast.Compare) and len(st.test.ops) == 1 and U(st.test.left) == 'level' \
                             and st.body and isinstance(st.body[-1], ast.Return) and const(st.body[-1].value) is False:
                         op2 = st.test.ops[0]
-                        l2 = lin(st.test.comparators[0])
+                        l2 = blin(st.test.comparators[0])
                         if l2 is None or len(l2.t) != 1 or not isinstance(op2, (ast.Gt, ast.GtE)):
                             bounds = None
                             break
@@ -623,8 +654,15 @@ def r9_level_cursor_domain(ctx, rule):
             if isinstance(node, ast.For) and U(node.target) == 'level' and isinstance(node.iter, ast.Call) and call_name(node.iter) == 'range' \
                     and len(node.iter.args) == 2:
                 site = node
-                bounds = _upper_bounds(node.iter.args[1])
+                bounds = _upper_bounds(node.iter.args[1], blin)
                 break
+        if bounds is None and wrong_budget:
+            n += 1
+            ctx.bad(rule, q, 'level bound %s' % wrong_budget[0],
+                    'the cursor must visit the levels up to the remaining budget inclusive - here %r; a bound that subtracts more stops '
+                    'the walk early and the strings behind the skipped levels are never generated, although the keyspace counts them'
+                    % expected, None, site, firm=True)
+            continue
         if bounds is None:
             ctx.unk(rule, q, 'level loop bounds not recognised')
             continue
